@@ -349,6 +349,61 @@ def create_metric_classic(with_state=True):
     return ev
 
 
+DIST = 'new.dist.metric'
+
+
+def _fill_dist_descriptor(d, resolution='0.1'):
+    d.Type = _pm().CodedValue('12346')
+    d.Unit = _pm().CodedValue('262656')
+    d.DomainUnit = _pm().CodedValue('262657')
+    d.DistributionRange = _pm().Range(lower=Decimal(0), upper=Decimal(10))
+    d.Resolution = Decimal(resolution)
+    d.MetricCategory = _pm().MetricCategory.MEASUREMENT
+    d.MetricAvailability = _pm().MetricAvailability.CONTINUOUS
+
+
+def create_dist_metric(how):
+    """A DistributionSampleArrayMetric (a metric kind none of the MDIB files contains), created through either interface."""
+    def ev(p):
+        _need(p, DIST, present=False)
+        _need(p, CH)
+        if how == 'entity':
+            ent = p.mdib.entities.new_entity(_names().DistributionSampleArrayMetricDescriptor, DIST, CH)
+            _fill_dist_descriptor(ent.descriptor)
+            with p.mdib.descriptor_transaction() as tr:
+                tr.write_entity(ent)
+            return
+        cls = p.mdib.data_model.get_descriptor_container_class(_names().DistributionSampleArrayMetricDescriptor)
+        d = cls(handle=DIST, parent_handle=CH)
+        _fill_dist_descriptor(d)
+        with p.mdib.descriptor_transaction() as tr:
+            tr.add_descriptor(d, state_container=p.mdib.data_model.mk_state_container(d))
+    return ev
+
+
+def update_dist_metric(how):
+    def ev(p):
+        _need(p, DIST)
+        if how == 'entity':
+            ent = p.mdib.entities.by_handle(DIST)
+            ent.descriptor.Resolution = Decimal('0.5')
+            with p.mdib.descriptor_transaction() as tr:
+                tr.write_entity(ent)
+            return
+        with p.mdib.descriptor_transaction() as tr:
+            tr.get_descriptor(DIST).Resolution = Decimal('0.25')
+    return ev
+
+
+def dist_metric_value(p):
+    _need(p, DIST)
+    with p.mdib.metric_state_transaction() as tr:
+        st = tr.get_state(DIST)
+        if st.MetricValue is None:
+            st.mk_metric_value()
+        st.MetricValue.Samples = [Decimal(1), Decimal(2)]
+
+
 NEWSIG = 'new.signal'
 
 
@@ -597,6 +652,12 @@ EVENTS = [
     ('create-metric', create_metric_classic(True)),
     ('create-metric-nostate', create_metric_classic(False)),
     ('create-metric-entity', create_metric_entity),
+    ('create-dist-metric', create_dist_metric('classic')),
+    ('create-dist-metric-entity', create_dist_metric('entity')),
+    ('update-dist-metric', update_dist_metric('classic')),
+    ('update-dist-metric-entity', update_dist_metric('entity')),
+    ('dist-metric-value', dist_metric_value),
+    ('delete(DIST)', delete(DIST)),
     ('create-signal(ac)', create_signal(AC)),
     ('create-signal(ac2)', create_signal(AC2)),
     ('delete(NEWSIG)', delete(NEWSIG)),
